@@ -63,16 +63,13 @@ make_filter(const World& w, const RunCfg& rc)
   return f;
 }
 
-// one real reconstruction with fresh objects.  prefix non-empty: output enabled, every iterate saved
 static void
-run_osmaposl(const World& w, const RunCfg& rc, const std::vector<float>& start_image, const shared_ptr<Target>& start_object, int start,
-             const std::string& prefix, bool positivity, RunOut& out)
+configure_recon(OSMAPOSLReconstruction<Target>& recon, const shared_ptr<RecObj>& obj, const World& w, const RunCfg& rc, int start, int ntot,
+                const std::string& prefix, bool positivity)
 {
-  shared_ptr<RecObj> obj = make_objective(w, rc.N, rc.prior, rc.use_subset_sens);
-  OSMAPOSLReconstruction<Target> recon;
   recon.set_objective_function_sptr(obj);
   recon.set_num_subsets(rc.N);
-  recon.set_num_subiterations(rc.Ntot);
+  recon.set_num_subiterations(ntot);
   recon.set_start_subset_num(rc.start_subset);
   recon.set_start_subiteration_num(start);
   recon.set_randomise_subset_order(rc.randomise);
@@ -92,7 +89,7 @@ run_osmaposl(const World& w, const RunCfg& rc, const std::vector<float>& start_i
   if (prefix.empty())
     {
       recon.set_disable_output(true);
-      recon.set_save_interval(rc.Ntot);
+      recon.set_save_interval(ntot);
     }
   else
     {
@@ -100,6 +97,16 @@ run_osmaposl(const World& w, const RunCfg& rc, const std::vector<float>& start_i
       recon.set_output_filename_prefix(prefix);
       recon.set_save_interval(1);
     }
+}
+
+// one real reconstruction with fresh objects.  prefix non-empty: output enabled, every iterate saved
+static void
+run_osmaposl(const World& w, const RunCfg& rc, const std::vector<float>& start_image, const shared_ptr<Target>& start_object, int start,
+             const std::string& prefix, bool positivity, RunOut& out)
+{
+  shared_ptr<RecObj> obj = make_objective(w, rc.N, rc.prior, rc.use_subset_sens);
+  OSMAPOSLReconstruction<Target> recon;
+  configure_recon(recon, obj, w, rc, start, rc.Ntot, prefix, positivity);
   shared_ptr<Target> tgt = start_object ? start_object : w.img_from(start_image);
   out.start = start;
   out.prefix = prefix;
@@ -118,6 +125,44 @@ run_osmaposl(const World& w, const RunCfg& rc, const std::vector<float>& start_i
       out.subsets.push_back(c.subset);
     }
   out.it.push_back(World::vec_from(*tgt));
+}
+
+// "interrupted and resumed" with the SAME reconstruction and objective-function objects: sub-iterations 1..k, then the same
+// objects are told to start at k+1, set up again (as the documentation requires after changing parameters) and run to Ntot
+// on the image they left.  out receives the second leg (start = k+1).  Returns false if the library rejects a leg.
+static bool
+run_osmaposl_resumed_same_objects(const World& w, const RunCfg& rc, const std::vector<float>& start_image, int k, RunOut& out)
+{
+  shared_ptr<RecObj> obj = make_objective(w, rc.N, rc.prior, rc.use_subset_sens);
+  OSMAPOSLReconstruction<Target> recon;
+  configure_recon(recon, obj, w, rc, 1, k, std::string(), rc.positivity);
+  shared_ptr<Target> tgt = w.img_from(start_image);
+  if (recon.set_up(tgt) != Succeeded::yes)
+    return false;
+  if (recon.reconstruct(tgt) != Succeeded::yes)
+    return false;
+  // resume
+  recon.set_start_subiteration_num(k + 1);
+  recon.set_num_subiterations(rc.Ntot);
+  recon.set_save_interval(rc.Ntot);
+  recon.set_enforce_initial_positivity(false); // (documented to change non-positive voxels at set_up; not part of the comparison)
+  out.start = k + 1;
+  out.given_start = World::vec_from(*tgt);
+  if (recon.set_up(tgt) != Succeeded::yes)
+    return false;
+  out.start_after_setup = World::vec_from(*tgt);
+  obj->calls.clear();
+  if (recon.reconstruct(tgt) != Succeeded::yes)
+    return false;
+  out.it.clear();
+  out.subsets.clear();
+  for (const RecObj::Call& c : obj->calls)
+    {
+      out.it.push_back(c.input);
+      out.subsets.push_back(c.subset);
+    }
+  out.it.push_back(World::vec_from(*tgt));
+  return true;
 }
 
 static bool
@@ -590,6 +635,56 @@ run_case(Ctx& ctx)
             ctx.count("restarts_positivity_on_start_image_unchanged");
           if (from_file)
             ctx.count("file_roundtrip_restarts");
+        }
+      // (5b) the same objects interrupted after k and resumed (set_start_subiteration_num(k+1), set_up again, reconstruct): whatever
+      // the objects kept from their first set_up / first leg must not change the later iterates
+      // VERIF_NO_SAME_OBJECT_RESUME: development switch (shows what the check saw before this clause existed)
+      if (!std::getenv("VERIF_NO_SAME_OBJECT_RESUME") && rc.Ntot >= 2 && same_bits(main.given_start, main.start_after_setup) && rng.coin(ctx.thorough() ? 0.8 : 0.5))
+        {
+          const int k = static_cast<int>(rng.range(1, rc.Ntot - 1));
+          ctx.heartbeat(vf::fmt("same-object-resume-at-%d", k + 1));
+          RunOut r;
+          if (!run_osmaposl_resumed_same_objects(w, rc, start, k, r))
+            ctx.count("same_object_resumes_rejected_by_library");
+          else if (static_cast<int>(r.subsets.size()) != rc.Ntot - k)
+            ctx.violation("osmaposl:resume-same-objects:number-of-updates-differs",
+                          vf::fmt("%zu updates for sub-iterations %d..%d", r.subsets.size(), k + 1, rc.Ntot));
+          else if (!same_bits(r.given_start, main.after(k)))
+            ctx.violation("osmaposl:resume-same-objects:first-leg-differs-from-uninterrupted-run",
+                          vf::fmt("iterate after %d sub-iterations of a run limited to %d: %s", k, k,
+                                  w.vox_name(std::max(0, first_diff(r.given_start, main.after(k)))).c_str()));
+          else if (!same_bits(r.given_start, r.start_after_setup))
+            ctx.violation("osmaposl:resume-same-objects:set_up-changed-the-image-without-enforce_initial_positivity",
+                          w.vox_name(std::max(0, first_diff(r.given_start, r.start_after_setup))));
+          else
+            {
+              bool ok = true;
+              for (int j = k + 1; j <= rc.Ntot && ok; ++j)
+                {
+                  if (r.subsets[static_cast<size_t>(j - k - 1)] != main.subsets[static_cast<size_t>(j - 1)])
+                    {
+                      ctx.violation("osmaposl:resume-same-objects:subset-schedule-differs-from-uninterrupted-run",
+                                    vf::fmt("resumed at %d: sub-iteration %d uses subset %d, uninterrupted run used %d (num_subsets %d, start_subset %d)",
+                                            k + 1, j, r.subsets[static_cast<size_t>(j - k - 1)], main.subsets[static_cast<size_t>(j - 1)], rc.N,
+                                            rc.start_subset));
+                      ok = false;
+                    }
+                  else if (!same_bits(r.after(j), main.after(j)))
+                    {
+                      const int v = first_diff(r.after(j), main.after(j));
+                      ctx.violation("osmaposl:resume-same-objects:iterate-differs-from-uninterrupted-run",
+                                    vf::fmt("same objects interrupted after %d and resumed: iterate %d %s = %.9g, uninterrupted %.9g (num_subsets %d, "
+                                            "subset sensitivities %d, prior %d, filter %d)",
+                                            k, j, w.vox_name(v).c_str(), r.after(j)[static_cast<size_t>(v)], main.after(j)[static_cast<size_t>(v)], rc.N,
+                                            rc.use_subset_sens, rc.prior.kind, rc.filter_kind));
+                      ok = false;
+                    }
+                  else
+                    ctx.count("same_object_resume_iterates_compared");
+                }
+              if (ok)
+                ctx.count("same_object_resumes_checked");
+            }
         }
     }
   ctx.nontrivial = w.nnz >= 30 && w.total_counts > 0 && updates_checked >= 2;
